@@ -1546,6 +1546,8 @@ class BaseSpaceImpl(*_base_space_impl_base):
     def on_delete(self):
         self.del_all_itemspaces()
         for cells in self.cells.values():
+            # Also clears values computed through uncached cells
+            self.model.clear_obj(cells)
             cells.clear_all_values(clear_input=True)
             cells.on_delete()
         super().on_delete()
